@@ -267,6 +267,16 @@ Example c20_config_product_words :
   new_config U0 [103;111;122;101;114;111] = Ok [103;111;122;101;114;111].
 Proof. vm_compute. repeat split; reflexivity. Qed.
 
+(* '%' and line breaks are plain template text: "100%_go_designer_%d" / userName -> "100%_user_name_%d";
+   "Go\r\nDesigner" through NewConfig / user_name -> "User\r\nName" *)
+Example c20_percent_and_linebreak :
+  file_naming_format U0 [49;48;48;37;95;103;111;95;100;101;115;105;103;110;101;114;95;37;100] [117;115;101;114;78;97;109;101]
+    = Ok [49;48;48;37;95;117;115;101;114;95;110;97;109;101;95;37;100] /\
+  configured_format U0 [71;111;13;10;68;101;115;105;103;110;101;114] [117;115;101;114;95;110;97;109;101]
+    = Ok [85;115;101;114;13;10;78;97;109;101] /\
+  new_config U0 [103;111;10;100;101;115;105;103;110;101;114] = Ok [103;111;10;100;101;115;105;103;110;101;114].
+Proof. vm_compute. repeat split; reflexivity. Qed.
+
 (* user_name -> UserName -> user_name *)
 Example c20_roundtrip_example :
   to_camel U0 [117;115;101;114;95;110;97;109;101] = Ok [85;115;101;114;78;97;109;101] /\
